@@ -5,6 +5,7 @@ import (
 	"go/token"
 	"go/types"
 	"sort"
+	"sync"
 
 	"golang.org/x/tools/go/ssa"
 )
@@ -81,9 +82,9 @@ type CutInfo struct {
 }
 
 type cand struct {
-	desc   string
-	eval   func(vals []Val) *Term // over phi values
-	alive  bool
+	desc  string
+	eval  func(st *State, vals []Val) *Term // over the state and the phi values
+	alive bool
 }
 
 type measure struct {
@@ -213,17 +214,34 @@ func (e *Exec) startCut(st *State, fr *Frame, h, prev *ssa.BasicBlock) {
 	// 2. dry runs: write set + phi re-pointing + Houdini over candidates
 	cands := e.synthCandidates(st, fr, h, phis, entry, body)
 	// init filter for candidates
-	for _, cd := range cands {
-		g := cd.eval(entry)
-		if g.IsTrue() {
-			continue
+	{
+		var pend []*cand
+		var goals []*Term
+		for _, cd := range cands {
+			g := cd.eval(st, entry)
+			if g.IsTrue() {
+				continue
+			}
+			if g.IsFalse() {
+				cd.alive = false
+				continue
+			}
+			pend = append(pend, cd)
+			goals = append(goals, g)
 		}
-		if g.IsFalse() || !e.quickValid(st, g) {
-			cd.alive = false
+		oks := e.quickValidMany(st, goals)
+		for i, cd := range pend {
+			if !oks[i] {
+				cd.alive = false
+			}
 		}
 	}
-	writes := map[int]bool{}
+	var arrivals []*arrival
+	writes := map[int]map[string][]PathElem{}
 	repoint := map[int]bool{}
+	cellCand := map[string]bool{}
+	deltas := map[int]*Term{}
+	nonConstDelta := map[int]bool{}
 	measures := e.synthMeasures(fr, h, phis, body)
 	for round := 0; round < 8; round++ {
 		changed := false
@@ -238,7 +256,14 @@ func (e *Exec) startCut(st *State, fr *Frame, h, prev *ssa.BasicBlock) {
 		}
 		for _, cd := range cands {
 			if cd.alive {
-				s2.assume(cd.eval(head))
+				g := cd.eval(s2, head)
+				if g.IsFalse() {
+					// contradicts the shape of the havoc'd state (e.g. a re-pointed slice): not an invariant
+					cd.alive = false
+					changed = true
+					continue
+				}
+				s2.assume(g)
 			}
 		}
 		cut := &CutInfo{Header: h, Dry: true, Phis: phis, HeadVals: head}
@@ -261,18 +286,42 @@ func (e *Exec) startCut(st *State, fr *Frame, h, prev *ssa.BasicBlock) {
 			if changed {
 				return
 			}
+			for k := range phis {
+				hb, ok1 := head[k].(*Term)
+				bb, ok2 := back[k].(*Term)
+				if !ok1 || !ok2 || !isIntType(phis[k].Type()) || nonConstDelta[k] {
+					continue
+				}
+				d := e.C.Sub(bb, hb)
+				if !d.IsConst() {
+					nonConstDelta[k] = true
+					continue
+				}
+				if prev, have := deltas[k]; have && prev != d {
+					nonConstDelta[k] = true
+					continue
+				}
+				deltas[k] = d
+			}
+			arr := &arrival{st: bs}
 			for _, cd := range cands {
 				if !cd.alive {
 					continue
 				}
-				g := cd.eval(back)
+				g := cd.eval(bs, back)
 				if g.IsTrue() {
 					continue
 				}
-				if g.IsFalse() || !e.quickValid(bs, g) {
+				if g.IsFalse() {
 					cd.alive = false
 					changed = true
+					continue
 				}
+				arr.pend = append(arr.pend, cd)
+				arr.goals = append(arr.goals, g)
+			}
+			if len(arr.goals) > 0 {
+				arrivals = append(arrivals, arr)
 			}
 		}
 		if f2.Cuts == nil {
@@ -280,14 +329,115 @@ func (e *Exec) startCut(st *State, fr *Frame, h, prev *ssa.BasicBlock) {
 		}
 		f2.Cuts[h] = cut
 		f2.Region = body
+		arrivals = nil
 		e.runRegion(s2, f2, h)
+		// check all back-edge arrivals: conjunctions first (in parallel), individual goals only where that fails
+		if len(arrivals) > 0 {
+			conj := make([]*Term, len(arrivals))
+			sts := make([]*State, len(arrivals))
+			for i, a := range arrivals {
+				conj[i] = e.C.And(a.goals...)
+				sts[i] = a.st
+			}
+			okc := e.quickValidEach(sts, conj)
+			for i, a := range arrivals {
+				if okc[i] {
+					continue
+				}
+				oks := e.quickValidMany(a.st, a.goals)
+				for j, cd := range a.pend {
+					if !oks[j] && cd.alive {
+						cd.alive = false
+						changed = true
+					}
+				}
+			}
+		}
 		for id := range s2.Record.Objs {
-			if _, existed := st.Heap[id]; existed && !writes[id] {
-				writes[id] = true
+			_, inHeap := st.Heap[id]
+			_, inMaps := st.Maps[id]
+			if !inHeap && !inMaps {
+				continue
+			}
+			if writes[id] == nil {
+				writes[id] = map[string][]PathElem{}
 				changed = true
 			}
-			if _, existed := st.Maps[id]; existed && !writes[id] {
-				writes[id] = true
+			for k, pth := range s2.Record.Paths[id] {
+				if _, have := writes[id][k]; !have {
+					writes[id][k] = pth
+					changed = true
+				}
+			}
+			if inMaps && len(writes[id]) == 0 {
+				writes[id][""] = nil
+			}
+		}
+		// linear relations between induction variables with constant strides: dj*(pi-pi0) == di*(pj-pj0)
+		for i := range phis {
+			for j := range phis {
+				if i >= j || nonConstDelta[i] || nonConstDelta[j] {
+					continue
+				}
+				di, ok1 := deltas[i]
+				dj, ok2 := deltas[j]
+				if !ok1 || !ok2 || di.S != dj.S || isZero(di) || isZero(dj) {
+					continue
+				}
+				key := fmt.Sprintf("lin%d-%d", i, j)
+				if cellCand[key] {
+					continue
+				}
+				cellCand[key] = true
+				e0i, oki := entry[i].(*Term)
+				e0j, okj := entry[j].(*Term)
+				if !oki || !okj {
+					continue
+				}
+				i, j, di, dj := i, j, di, dj
+				cands = append(cands, &cand{desc: fmt.Sprintf("%s and %s advance in lock-step (%s : %s)", phiName(phis[i]), phiName(phis[j]), di.SInt(), dj.SInt()), alive: true, eval: func(_ *State, v []Val) *Term {
+					return e.C.Eq(e.C.Mul(dj, e.C.Sub(v[i].(*Term), e0i)), e.C.Mul(di, e.C.Sub(v[j].(*Term), e0j)))
+				}})
+				changed = true
+			}
+		}
+		// candidates over written scalar locations (cells / fields)
+		for id, paths := range writes {
+			if _, isMap := st.Maps[id]; isMap {
+				continue
+			}
+			for k, pth := range paths {
+				ck := fmt.Sprintf("%d%s", id, k)
+				if cellCand[ck] {
+					continue
+				}
+				cellCand[ck] = true
+				ev, ok := e.navigate(st, e.root(st, id), pth).(*Term)
+				ty := typeAt(e.meta(id).T, pth)
+				if !ok || ty == nil || !isIntType(ty) {
+					continue
+				}
+				id, pth, e0 := id, pth, ev
+				signed := isSigned(ty)
+				name := fmt.Sprintf("obj%d%s", id, k)
+				if m := e.meta(id); m != nil && m.Name != "" {
+					name = m.Name + k
+				}
+				get := func(s *State) *Term { return e.navigate(s, e.root(s, id), pth).(*Term) }
+				cands = append(cands, &cand{desc: name + " >= entry", alive: true, eval: func(s *State, _ []Val) *Term { return e.C.Le(e0, get(s), signed) }})
+				cands = append(cands, &cand{desc: name + " <= entry", alive: true, eval: func(s *State, _ []Val) *Term { return e.C.Le(get(s), e0, signed) }})
+				if signed {
+					z := zeroOf(e.C, e0.S)
+					cands = append(cands, &cand{desc: name + " >= 0", alive: true, eval: func(s *State, _ []Val) *Term { return e.C.Le(z, get(s), true) }})
+				}
+				for _, cd := range cands[len(cands)-3:] {
+					if cd.alive {
+						g := cd.eval(st, entry)
+						if !g.IsTrue() && (g.IsFalse() || !e.quickValid(st, g)) {
+							cd.alive = false
+						}
+					}
+				}
 				changed = true
 			}
 		}
@@ -308,7 +458,12 @@ func (e *Exec) startCut(st *State, fr *Frame, h, prev *ssa.BasicBlock) {
 	}
 	for _, cd := range cands {
 		if cd.alive {
-			st.assume(cd.eval(head))
+			g := cd.eval(st, head)
+			if g.IsFalse() {
+				cd.alive = false
+				continue
+			}
+			st.assume(g)
 			kept = append(kept, cd.desc)
 		}
 	}
@@ -324,7 +479,7 @@ func (e *Exec) startCut(st *State, fr *Frame, h, prev *ssa.BasicBlock) {
 }
 
 // havocLoopState replaces phis and the written heap objects by fresh values; returns header phi values.
-func (e *Exec) havocLoopState(st *State, fr *Frame, h *ssa.BasicBlock, phis []*ssa.Phi, entry []Val, writes map[int]bool, repoint map[int]bool, desc string) []Val {
+func (e *Exec) havocLoopState(st *State, fr *Frame, h *ssa.BasicBlock, phis []*ssa.Phi, entry []Val, writes map[int]map[string][]PathElem, repoint map[int]bool, desc string) []Val {
 	ids := make([]int, 0, len(writes))
 	for id := range writes {
 		ids = append(ids, id)
@@ -338,16 +493,25 @@ func (e *Exec) havocLoopState(st *State, fr *Frame, h *ssa.BasicBlock, phis []*s
 			st.Maps[id] = &ns
 			continue
 		}
-		root := e.root(st, id)
 		m := e.meta(id)
 		name := fmt.Sprintf("loop.obj%d", id)
-		nv := e.havocVal(st, root, m.T, name)
-		if av, ok := nv.(*ArrayVal); ok && m.Growable && av.Scalar {
-			l := e.C.Fresh(name+".len", e.idxSort())
-			st.assume(e.lenFact(l))
-			av.Len = l
+		var keys []string
+		for k := range writes[id] {
+			keys = append(keys, k)
 		}
-		st.Heap[id] = nv
+		sort.Strings(keys)
+		for _, k := range keys {
+			pth := writes[id][k]
+			cur := e.navigate(st, e.root(st, id), pth)
+			ty := typeAt(m.T, pth)
+			nv := e.havocVal(st, cur, ty, name+k)
+			if av, ok := nv.(*ArrayVal); ok && m.Growable && av.Scalar && len(pth) == 0 {
+				l := e.C.Fresh(name+".len", e.idxSort())
+				st.assume(e.lenFact(l))
+				av.Len = l
+			}
+			st.Heap[id] = e.update(st, e.root(st, id), pth, func(Val) Val { return nv })
+		}
 	}
 	head := make([]Val, len(phis))
 	for k, ph := range phis {
@@ -362,7 +526,7 @@ func (e *Exec) havocLoopState(st *State, fr *Frame, h *ssa.BasicBlock, phis []*s
 			head[k] = e.havocVal(st, entry[k], ph.Type(), name)
 			// growable backing: the slice stays "at the end" of its array
 			if sv, ok := head[k].(*SliceVal); ok && sv.Obj != 0 {
-				if m := e.meta(sv.Obj); m != nil && m.Growable && writes[sv.Obj] {
+				if m := e.meta(sv.Obj); m != nil && m.Growable && writes[sv.Obj] != nil {
 					if ev, ok := entry[k].(*SliceVal); ok {
 						av := e.sliceBacking(st, sv)
 						nsv := &SliceVal{Obj: sv.Obj, Path: sv.Path, Off: ev.Off, Len: e.C.Sub(av.Len, ev.Off), Cap: e.C.Sub(av.Len, ev.Off), Nil: e.C.False(), ElemT: sv.ElemT}
@@ -389,6 +553,7 @@ func (e *Exec) runRegion(st *State, fr *Frame, h *ssa.BasicBlock) {
 		if w.idx == 0 && w.fr.Region != nil && !w.fr.Region[w.blk] {
 			continue // left the loop
 		}
+		debugf("region %s: block %d idx %d dead=%v", fr.Fn.Name(), w.blk.Index, w.idx, w.st.Dead)
 		nw, _ := e.runBlock(w)
 		wl = append(wl, nw...)
 		if len(wl) > e.MaxPaths {
@@ -414,6 +579,7 @@ func (e *Exec) backEdge(st *State, fr *Frame, h, prev *ssa.BasicBlock, cut *CutI
 		back[k] = e.val(st, fr, ph.Edges[pi])
 	}
 	if cut.Dry {
+		debugf("dry back-edge at block %d from %d", h.Index, prev.Index)
 		cut.OnBack(st, fr, prev, back)
 		return
 	}
@@ -429,7 +595,7 @@ func (e *Exec) backEdge(st *State, fr *Frame, h, prev *ssa.BasicBlock, cut *CutI
 	// synthesised invariants were established by the dry runs under the same hypotheses; re-emit as obligations
 	for _, cd := range cut.Cands {
 		if cd.alive {
-			e.obligeL(st, "inv-step", fmt.Sprintf("%s: auto %s", desc, cd.desc), token.Position{}, cd.eval(back), nil)
+			e.obligeL(st, "inv-step", fmt.Sprintf("%s: auto %s", desc, cd.desc), token.Position{}, cd.eval(st, back), nil)
 		}
 	}
 	// termination
@@ -475,11 +641,11 @@ func (e *Exec) synthCandidates(st *State, fr *Frame, h *ssa.BasicBlock, phis []*
 			}
 			signed := isSigned(ph.Type())
 			e0 := ev
-			cs = append(cs, &cand{desc: fmt.Sprintf("%s >= entry", phiName(ph)), alive: true, eval: func(v []Val) *Term { return c.Le(e0, v[k].(*Term), signed) }})
-			cs = append(cs, &cand{desc: fmt.Sprintf("%s <= entry", phiName(ph)), alive: true, eval: func(v []Val) *Term { return c.Le(v[k].(*Term), e0, signed) }})
+			cs = append(cs, &cand{desc: fmt.Sprintf("%s >= entry", phiName(ph)), alive: true, eval: func(_ *State, v []Val) *Term { return c.Le(e0, v[k].(*Term), signed) }})
+			cs = append(cs, &cand{desc: fmt.Sprintf("%s <= entry", phiName(ph)), alive: true, eval: func(_ *State, v []Val) *Term { return c.Le(v[k].(*Term), e0, signed) }})
 			if signed {
 				z := zeroOf(c, e0.S)
-				cs = append(cs, &cand{desc: fmt.Sprintf("%s >= 0", phiName(ph)), alive: true, eval: func(v []Val) *Term { return c.Le(z, v[k].(*Term), true) }})
+				cs = append(cs, &cand{desc: fmt.Sprintf("%s >= 0", phiName(ph)), alive: true, eval: func(_ *State, v []Val) *Term { return c.Le(z, v[k].(*Term), true) }})
 			}
 			// bounds from comparisons in the loop against loop-invariant values
 			for b := range body {
@@ -489,9 +655,20 @@ func (e *Exec) synthCandidates(st *State, fr *Frame, h *ssa.BasicBlock, phis []*
 						continue
 					}
 					var other ssa.Value
-					if bo.X == ssa.Value(ph) {
+					isPhiish := func(v ssa.Value) bool {
+						if v == ssa.Value(ph) {
+							return true
+						}
+						if b2, ok := v.(*ssa.BinOp); ok && (b2.Op == token.ADD || b2.Op == token.SUB) {
+							_, cy := b2.Y.(*ssa.Const)
+							_, cx := b2.X.(*ssa.Const)
+							return (b2.X == ssa.Value(ph) && cy) || (b2.Y == ssa.Value(ph) && cx)
+						}
+						return false
+					}
+					if isPhiish(bo.X) {
 						other = bo.Y
-					} else if bo.Y == ssa.Value(ph) {
+					} else if isPhiish(bo.Y) {
 						other = bo.X
 					} else {
 						continue
@@ -501,10 +678,36 @@ func (e *Exec) synthCandidates(st *State, fr *Frame, h *ssa.BasicBlock, phis []*
 					default:
 						continue
 					}
+					var ov Val
+					ok2 := false
 					if oi, ok := other.(ssa.Instruction); ok && body[oi.Block()] {
-						continue
+						// len(x) of a value defined outside the loop is loop-invariant even when recomputed inside
+						call, isCall := other.(*ssa.Call)
+						if !isCall {
+							continue
+						}
+						bi, isB := call.Call.Value.(*ssa.Builtin)
+						if !isB || bi.Name() != "len" {
+							continue
+						}
+						arg := call.Call.Args[0]
+						if ai, ok := arg.(ssa.Instruction); ok && body[ai.Block()] {
+							continue
+						}
+						av, have := fr.Env[arg]
+						if !have {
+							continue
+						}
+						switch av.(type) {
+						case *SliceVal, *StringVal:
+							ov, ok2 = e.lenOf(st, av), true
+						default:
+							continue
+						}
 					}
-					ov, ok2 := fr.Env[other]
+					if !ok2 {
+						ov, ok2 = fr.Env[other]
+					}
 					if _, isC := other.(*ssa.Const); isC {
 						ov, ok2 = e.constVal(st, other.(*ssa.Const)), true
 					}
@@ -515,8 +718,9 @@ func (e *Exec) synthCandidates(st *State, fr *Frame, h *ssa.BasicBlock, phis []*
 					if !ok3 || ot.S != e0.S {
 						continue
 					}
-					cs = append(cs, &cand{desc: fmt.Sprintf("%s <= %s", phiName(ph), other.Name()), alive: true, eval: func(v []Val) *Term { return c.Le(v[k].(*Term), ot, signed) }})
-					cs = append(cs, &cand{desc: fmt.Sprintf("%s >= %s", phiName(ph), other.Name()), alive: true, eval: func(v []Val) *Term { return c.Le(ot, v[k].(*Term), signed) }})
+					cs = append(cs, &cand{desc: fmt.Sprintf("%s <= %s", phiName(ph), other.Name()), alive: true, eval: func(_ *State, v []Val) *Term { return c.Le(v[k].(*Term), ot, signed) }})
+					cs = append(cs, &cand{desc: fmt.Sprintf("%s >= %s", phiName(ph), other.Name()), alive: true, eval: func(_ *State, v []Val) *Term { return c.Le(ot, v[k].(*Term), signed) }})
+					cs = append(cs, &cand{desc: fmt.Sprintf("%s < %s", phiName(ph), other.Name()), alive: true, eval: func(_ *State, v []Val) *Term { return c.Lt(v[k].(*Term), ot, signed) }})
 				}
 			}
 		case *SliceVal:
@@ -526,21 +730,21 @@ func (e *Exec) synthCandidates(st *State, fr *Frame, h *ssa.BasicBlock, phis []*
 			e0 := ev
 			end := c.Add(e0.Off, e0.Len)
 			cend := c.Add(e0.Off, e0.Cap)
-			cs = append(cs, &cand{desc: fmt.Sprintf("%s is a suffix window (off+len fixed)", phiName(ph)), alive: true, eval: func(v []Val) *Term {
+			cs = append(cs, &cand{desc: fmt.Sprintf("%s is a suffix window (off+len fixed)", phiName(ph)), alive: true, eval: func(_ *State, v []Val) *Term {
 				sv, ok := v[k].(*SliceVal)
 				if !ok || sv.Obj != e0.Obj {
 					return c.False()
 				}
 				return c.And(c.Eq(c.Add(sv.Off, sv.Len), end), e.leIdx(e0.Off, sv.Off), e.leIdx(sv.Off, end))
 			}})
-			cs = append(cs, &cand{desc: fmt.Sprintf("%s keeps off+cap", phiName(ph)), alive: true, eval: func(v []Val) *Term {
+			cs = append(cs, &cand{desc: fmt.Sprintf("%s keeps off+cap", phiName(ph)), alive: true, eval: func(_ *State, v []Val) *Term {
 				sv, ok := v[k].(*SliceVal)
 				if !ok || sv.Obj != e0.Obj {
 					return c.False()
 				}
 				return c.Eq(c.Add(sv.Off, sv.Cap), cend)
 			}})
-			cs = append(cs, &cand{desc: fmt.Sprintf("%s non-nil", phiName(ph)), alive: true, eval: func(v []Val) *Term {
+			cs = append(cs, &cand{desc: fmt.Sprintf("%s non-nil", phiName(ph)), alive: true, eval: func(_ *State, v []Val) *Term {
 				sv, ok := v[k].(*SliceVal)
 				if !ok {
 					return c.False()
@@ -562,7 +766,7 @@ func (e *Exec) synthCandidates(st *State, fr *Frame, h *ssa.BasicBlock, phis []*
 			}
 			i, j := i, j
 			d0 := c.Sub(ti, tj)
-			cs = append(cs, &cand{desc: fmt.Sprintf("%s - %s constant", phiName(pi), phiName(pj)), alive: true, eval: func(v []Val) *Term {
+			cs = append(cs, &cand{desc: fmt.Sprintf("%s - %s constant", phiName(pi), phiName(pj)), alive: true, eval: func(_ *State, v []Val) *Term {
 				return c.Eq(c.Sub(v[i].(*Term), v[j].(*Term)), d0)
 			}})
 		}
@@ -595,9 +799,19 @@ func (e *Exec) synthMeasures(fr *Frame, h *ssa.BasicBlock, phis []*ssa.Phi, body
 		}
 		for k, ph := range phis {
 			var left bool
-			if bo.X == ssa.Value(ph) {
+			phiish := func(v ssa.Value) bool {
+				if v == ssa.Value(ph) {
+					return true
+				}
+				if b2, ok := v.(*ssa.BinOp); ok && b2.Op == token.ADD {
+					_, cy := b2.Y.(*ssa.Const)
+					return b2.X == ssa.Value(ph) && cy
+				}
+				return false
+			}
+			if phiish(bo.X) {
 				left = true
-			} else if bo.Y == ssa.Value(ph) {
+			} else if phiish(bo.Y) {
 				left = false
 			} else {
 				// len(phi) comparisons
@@ -630,6 +844,85 @@ func (e *Exec) synthMeasures(fr *Frame, h *ssa.BasicBlock, phis []*ssa.Phi, body
 func (e *Exec) quickValid(st *State, g *Term) bool {
 	e.houdiniQueries++
 	asserts := append(append([]*Term{}, st.PC...), e.C.Not(g))
-	res := e.W.Solve(e.C, asserts, 3.0, nil)
+	script := e.C.Script(e.W.Prelude, asserts, nil)
+	res := e.W.PF.Quick(script, 2.0)
+	debugf("quick %s %s %.2fs size=%d", res.Status, res.Solver, res.TimeS, len(script))
 	return res.Status == "unsat"
+}
+
+// typeAt walks a type along a field path (array steps take the element type).
+func typeAt(t types.Type, path []PathElem) types.Type {
+	for _, pe := range path {
+		if t == nil {
+			return nil
+		}
+		switch u := t.Underlying().(type) {
+		case *types.Struct:
+			if pe.Idx != nil || pe.Field < 0 || pe.Field >= u.NumFields() {
+				return nil
+			}
+			t = u.Field(pe.Field).Type()
+		case *types.Array:
+			t = u.Elem()
+		default:
+			return nil
+		}
+	}
+	return t
+}
+
+// quickValidMany checks several goals under the same path condition, in parallel.
+func (e *Exec) quickValidMany(st *State, goals []*Term) []bool {
+	scripts := make([]string, len(goals))
+	for i, g := range goals {
+		asserts := append(append([]*Term{}, st.PC...), e.C.Not(g))
+		scripts[i] = e.C.Script(e.W.Prelude, asserts, nil)
+	}
+	res := make([]bool, len(goals))
+	var wg sync.WaitGroup
+	sem := make(chan struct{}, 8)
+	for i := range goals {
+		i := i
+		wg.Add(1)
+		sem <- struct{}{}
+		go func() {
+			defer wg.Done()
+			defer func() { <-sem }()
+			res[i] = e.W.PF.Quick(scripts[i], 2.0).Status == "unsat"
+		}()
+	}
+	wg.Wait()
+	e.houdiniQueries += len(goals)
+	return res
+}
+
+type arrival struct {
+	st    *State
+	pend  []*cand
+	goals []*Term
+}
+
+// quickValidEach checks goal i under path condition of state i, in parallel.
+func (e *Exec) quickValidEach(sts []*State, goals []*Term) []bool {
+	scripts := make([]string, len(goals))
+	for i, g := range goals {
+		asserts := append(append([]*Term{}, sts[i].PC...), e.C.Not(g))
+		scripts[i] = e.C.Script(e.W.Prelude, asserts, nil)
+	}
+	res := make([]bool, len(goals))
+	var wg sync.WaitGroup
+	sem := make(chan struct{}, 8)
+	for i := range goals {
+		i := i
+		wg.Add(1)
+		sem <- struct{}{}
+		go func() {
+			defer wg.Done()
+			defer func() { <-sem }()
+			res[i] = e.W.PF.Quick(scripts[i], 2.0).Status == "unsat"
+		}()
+	}
+	wg.Wait()
+	e.houdiniQueries += len(goals)
+	return res
 }
